@@ -211,11 +211,16 @@ func (db *RockDB) HMset(ts int64, key []byte, args ...common.KVRecord) error {
 	var num int64
 	var value []byte
 	tsBuf := PutInt64(ts)
+	// the same field may be given more than once, the last value wins and it is counted once
+	lastIdx := lastOccurrenceIndexes(len(args), func(i int) []byte { return args[i].Key })
 	for i := 0; i < len(args); i++ {
 		if err = checkCollKFSize(verKey, args[i].Key); err != nil {
 			return err
 		} else if err = checkValueSize(args[i].Value); err != nil {
 			return err
+		}
+		if lastIdx != nil && lastIdx[string(args[i].Key)] != i {
+			continue
 		}
 		ek := hEncodeHashKey(table, verKey, args[i].Key)
 
